@@ -14,7 +14,7 @@ import sys
 
 import numpy as np
 
-from vmon import core, contracts, cli
+from vmon import core, contracts, cli, gen
 
 ANCHORS = ['evo/main_config.py', 'evo/tools/settings.py', 'evo/tools/settings_template.py', 'evo/entry_points.py']
 LEVEL = "exploration"
@@ -628,7 +628,96 @@ def k_merge_config(run, case):
         os.remove(cfg_path)
 
 
-KINDS = {"history": k_history, "container": k_container, "generate": k_generate, "merge_config": k_merge_config,
+FRESH_DRIVER = """
+import sys, json
+sys.argv = ['evo_%(tool)s'] + %(argv)r
+from evo import entry_points
+rc = 0
+try:
+    entry_points.%(tool)s()
+except SystemExit as e:
+    rc = e.code if isinstance(e.code, int) else (0 if e.code is None else 1)
+import matplotlib as mpl
+from evo.tools import settings
+fam = mpl.rcParams['font.family']
+print('VMON ' + json.dumps({'rc': rc, 'lines.linewidth': mpl.rcParams['lines.linewidth'],
+                            'legend.loc': mpl.rcParams['legend.loc'], 'font.family': list(fam) if not isinstance(fam, str) else [fam],
+                            'plot_loaded': 'evo.tools.plot' in sys.modules,
+                            'plot_linewidth': settings.SETTINGS.plot_linewidth}))
+"""
+
+
+def k_fresh_run(run, case):
+    """
+    '-c overrides matching package settings for that run only' through the real entry point in a
+    fresh interpreter and a fresh home: a run that plots must draw with the settings of the
+    config file (observed: the matplotlib parameters the plotting module derives from the package
+    settings - line width, legend location, font family - after the command has finished), the
+    settings file on disk stays as it was, and the next run without -c uses the stored settings.
+    """
+    import subprocess
+    import sys
+    import shutil
+    rng = run.rng(case)
+    tool = case.get("tool") or ["ape", "rpe", "traj"][rng.integers(3)]
+    work = os.path.join(os.environ.get("VMON_WORK", "."), "fresh_%d" % case["rs"][-1])
+    home = os.path.join(work, "home")
+    os.makedirs(home, exist_ok=True)
+    try:
+        n = 12
+        arr = gen.traj_arrays(rng, n, stamp_cls="small")
+        from vmon import refmodel as rm
+        q = np.array([rm.quat_wxyz_from_rot(R) for R in arr["R"]])
+        text = rm.write_tum_text(arr["t"], arr["p"], q)
+        for name in ("ref.txt", "est.txt", "a.txt"):
+            open(os.path.join(work, name), "w").write(text)
+        cfg = {"plot_linewidth": float(np.round(rng.uniform(2.5, 9.0), 2)),
+               "plot_legend_loc": ["lower left", "center", "upper left"][rng.integers(3)],
+               "plot_fontfamily": ["serif", "monospace"][rng.integers(2)]}
+        keys = [k for k in cfg if rng.random() < .7] or ["plot_linewidth"]
+        cfg = {k: cfg[k] for k in keys}
+        open(os.path.join(work, "cfg.json"), "w").write(json.dumps(cfg))
+        env = dict(os.environ)
+        env["HOME"] = home
+        env["MPLBACKEND"] = "Agg"
+        env["PYTHONPATH"] = str(core.REPO) + os.pathsep + env.get("PYTHONPATH", "")
+
+        def go(extra):
+            argv = BASE_ARGV[tool] + ["--save_plot", "plot.png", "--no_warnings"] + extra
+            p = subprocess.run([sys.executable, "-c", FRESH_DRIVER % {"tool": tool, "argv": argv}], cwd=work, env=env,
+                               capture_output=True, text=True, timeout=300)
+            line = [l for l in p.stdout.splitlines() if l.startswith("VMON ")]
+            return (json.loads(line[-1][5:]) if line else None), p
+
+        first, p0 = go([])  # first run: initialises the home, plots with the defaults
+        if first is None or first["rc"] != 0 or not first["plot_loaded"]:
+            raise core.Inconclusive("fresh run without -c did not plot: %s" % p0.stderr[-300:])
+        stored = open(os.path.join(home, ".evo", "settings.json"), "rb").read()
+        D = defaults()
+        got, p1 = go(["-c", "cfg.json"])
+        run.seen(case, core.digest(tool, cfg), cls=["fresh process with -c: evo_" + tool] + ["-c key:" + k for k in cfg],
+                 sample={"tool": tool, "config": cfg, "observed": got})
+        if not run.check(got is not None and got["rc"] == 0, "run with -c succeeds", case,
+                         "evo_%s -c cfg.json failed: %s" % (tool, p1.stderr[-300:]), key="fresh:-c-run-failed"):
+            return
+        want = {"lines.linewidth": cfg.get("plot_linewidth", D["plot_linewidth"]),
+                "legend.loc": cfg.get("plot_legend_loc", D["plot_legend_loc"]),
+                "font.family": [cfg.get("plot_fontfamily", D["plot_fontfamily"])]}
+        bad = {k: (got[k], v) for k, v in want.items() if got[k] != v}
+        run.check(not bad, "the run plots with the settings of the -c file", case,
+                  "evo_%s -c %r plotted with (observed, expected) %r" % (tool, cfg, bad),
+                  key="fresh:-c-setting-not-used-by-the-run")
+        run.check(open(os.path.join(home, ".evo", "settings.json"), "rb").read() == stored,
+                  "settings file untouched by -c (fresh process)", case, "the settings file changed", key="merge_config:file-changed")
+        third, _ = go([])
+        run.check(third is not None and all(third[k] == first[k] for k in want),
+                  "the next run uses the stored settings again", case,
+                  "after a run with -c the next run plotted with %r (before: %r)" % (third, first), key="fresh:-c-leaked")
+    finally:
+        shutil.rmtree(work, ignore_errors=True)
+
+
+KINDS = {"fresh_run": k_fresh_run, "history": k_history, "container": k_container, "generate": k_generate, "merge_config": k_merge_config,
          "upgrade_then": k_upgrade_then}
 
 GEN_CORPUS = [
@@ -653,7 +742,9 @@ def main(run):
         k_upgrade_then(run, run.case("upgrade_then", i, cmd=["reset_subset", "reset_all", "set"][i % 3]))
     for i in run.mine({"quick": 100, "thorough": 2000}[run.tier]):
         k_merge_config(run, run.case("merge_config", i))
-    run.need("set keeps the key set", "set changes only the named keys", "boolean parameter stays boolean",
+    for i in run.mine({"quick": 9, "thorough": 90}[run.tier]):
+        k_fresh_run(run, run.case("fresh_run", i, tool=["ape", "rpe", "traj"][i % 3]))
+    run.need("the run plots with the settings of the -c file", "set keeps the key set", "set changes only the named keys", "boolean parameter stays boolean",
              "list parameter stays a list", "numeric token stored as number",
              "reset(subset) restores exactly those keys", "reset -y restores all defaults",
              "hard merge: other wins / soft merge: existing values kept",
